@@ -7,7 +7,8 @@ EXPLANATION = (
     "Structural clauses of NMS decided on MIR: (R14.1) candidates are ordered by decreasing rank, rank = score or the "
     "box height; (R14.2) suppression is strict `covered fraction > nms_threshold`, the score filter is `score > "
     "score_threshold` with a missing score always passing, invalid boxes (height/aspect <= 0) are dropped, and the "
-    "score filter is applied to the score, before ranking; (R14.3) the covered fraction is intersection(outer, inner) "
+    "score filter is applied to the score, before ranking, and a missing score threshold defaults to the least f32 (it "
+    "filters nothing); (R14.3) the covered fraction is intersection(outer, inner) "
     "divided by the area of the inner (lower-ranked) box, the inner loop ranges over the suffix after the outer "
     "position, excluded boxes are identified by their candidate id everywhere (skip of the outer box, skip of the "
     "inner box, insertion, final filter), and an excluded outer box is skipped before it can suppress; (R14.4) the "
@@ -88,6 +89,7 @@ def run(ctx):
     n += 1
     ctx.check(len(flt) == 1, R, b, 'score-filter-before-ranking', '', 'the score / validity filter is not applied '
               'directly to the input detections before candidates are ranked (%d such filters)' % len(flt))
+    thr_exprs = []
     for c in flt:
         for cb in closure_args_of_call(F, b, c):
             ctx.read(cb)
@@ -111,6 +113,7 @@ def run(ctx):
                     if thr.kind == 'place' and thr.root[0] == 'upvar':
                         pb, pe = upvar_expr(F, cb, thr.root[1])
                         thr_ok = pe is not None and pe.has_place(root=('param', 3))
+                        thr_exprs.append(pe)
                     score_ok = thr_ok and dflt.kind == 'const' and 'MAX' in (dflt.const.get('item') or repr(dflt)) and \
                         uo.args[0].strip().fields[-1:] == ('1',)
                 if l.strip().kind == 'place' and l.strip().fields[-1:] == ('height',) and cm[0] == 'Gt' and \
@@ -126,8 +129,25 @@ def run(ctx):
                           '%r %s %r' % (c_[1], c_[0], c_[2]) for c_ in facts])
             ctx.check(h_ok, R, cb, 'valid-height', '', 'boxes with height <= 0 are not filtered out')
             ctx.check(a_ok, R, cb, 'valid-aspect', '', 'boxes with aspect <= 0 are not filtered out')
-    st = eb.place(0, ())
-    # score threshold default: unwrap_or(MIN)
+    # score threshold default: with `None` nothing is filtered by score => the default is the least f32 (or -inf)
+    for pe in thr_exprs:
+        e = pe.strip() if pe.kind != 'call' else pe
+        while e.kind == 'call' and e.name.rsplit('::', 1)[-1] in ('clone', 'deref') and e.args:
+            e = e.args[0]
+        okd = False
+        detail = repr(e)
+        if e.kind == 'call' and e.name.rsplit('::', 1)[-1] == 'unwrap_or' and len(e.args) == 2:
+            d = e.args[1]
+            item = (d.const.get('item') or '') if d.kind == 'const' else ''
+            val = d.const_value() if d.kind == 'const' else None
+            okd = d.kind == 'const' and (item.endswith('::MIN') or item.endswith('NEG_INFINITY') or
+                                         str(val) in ('-inf', '-3.40282347E+38', '-3.4028235e38', '-3.40282347e38'))
+            detail = 'unwrap_or(%r)' % d
+        n += 1
+        ctx.check(okd, R, b, 'no-score-threshold-filters-nothing', detail,
+                  'without a score threshold the filter compares scores with %s (expected the least f32: f32::MIN / '
+                  '-inf): boxes with scores at or below that default are dropped although no threshold was given'
+                  % detail)
     ctx.floor(R, n, 5)
     # ---------------- R14.3
     R = 'R14.3'
